@@ -31,7 +31,15 @@ S.install_fake_click()
 
 PROP_ID = "C12"
 DESIGN_REF = "6/C12"
-LEVEL_TEXT = "partial"
+LEVEL_TEXT = (
+    "Lean theorems for all inputs: toposort_flatten / sort_classes / the whole DependenciesResolver run are functions of the "
+    "dependency relation (no dict/set order), cluster designation is a function of the SCC partition, sort_types is "
+    "order-free exactly when priorities are distinct (only bytes/object tie, checked on the live table), sequence numbers / "
+    "occurrence bounds / choice grouping are invariant under injective relabelling of id(), CLI source order is listing-order "
+    "free, CLI-flag / config-file / API configurations coincide outside one proved corner; the model is tied to /repo by "
+    "differential runs with the set iteration order forced (ShuffledSet, forced vertex order), under 3 extra PYTHONHASHSEED "
+    "worker processes, and by end-to-end generations (3 routes x set orders x hash seeds) whose layout the model predicts"
+)
 LEVEL_NOTE = (
     "permutation-invariance of the modelled order-sensitive steps is proved for all inputs; "
     "SCC order-independence, the template layer, click's parser and ruff are covered by correspondence/"
@@ -1264,7 +1272,7 @@ def canon_e2e(o):
 
 
 def gen_e2e(rng, tier):
-    n = 14 if tier == "quick" else 150
+    n = 24 if tier == "quick" else 200
     k = 0
     tries = 0
     while k < n and tries < n * 4:
